@@ -706,7 +706,7 @@ impl CaseDriver for C20 {
         }
     }
     fn bound(&self, tier: Tier) -> usize {
-        tier.pick(2, 3)
+        tier.pick(2, 7)
     }
     fn gen(&self, _tier: Tier, c: &mut Chooser) -> Case {
         let conv = c.free(CONVS.len(), "conversion");
